@@ -106,6 +106,9 @@ class Device:
         self.sent_at_close = None
         self.send_calls = 0
         self.send_fail = set(spec.get('send_fail', []))
+        self.recv_fail = set(spec.get('recv_fail', []))
+        self.recv_calls = 0
+        self.recv_failed_now = False
         self.recv_blocking_calls = 0
         self.hung_before_close = False
 
@@ -137,6 +140,12 @@ class Device:
 
     def on_receive(self, port, block):
         c = self.clock
+        i = self.recv_calls
+        self.recv_calls += 1
+        if i in self.recv_fail:
+            self.recv_failed_now = True
+            self.log.ev('dev-read-fails', self.sub, i)
+            raise OSError(5, 'simulated device read error')
         if block:
             self.recv_blocking_calls += 1
         if self.style == 'blocking' and block and not self.pending_now() and \
@@ -211,6 +220,8 @@ class Lifecycle(BaseEngine):
             spec['hangup'] = [rng.randint(0, n), pick(rng, (0.0, 0.0, 0.001, 0.02, 0.3))]
             if rng.random() < 0.3:
                 spec['partial'] = rng.randint(1, 2)
+        if rng.random() < 0.12:
+            spec['recv_fail'] = sorted({rng.randrange(8) for _ in range(rng.randint(1, 2))})
         r = rng.random()
         if r < 0.15:
             spec['send_fail'] = [rng.randrange(40)]
@@ -224,7 +235,8 @@ class Lifecycle(BaseEngine):
         plan = {'prop': prop, 'kind': kind, 'autoreset': rng.random() < 0.4,
                 'sleep_time': pick(rng, (1e-4, 1e-3, 1e-2, 0.5)), 'start_time': pick(rng, (0.0, 100.0, 1.7e9)),
                 'perms': [rng.randrange(3) for _ in range(4)], 'yield_ports': rng.random() < 0.3,
-                'consumer_mutates': rng.random() < 0.3, 'bystander': rng.random() < 0.25}
+                'consumer_mutates': rng.random() < 0.3, 'bystander': rng.random() < 0.25,
+                'epilogue': rng.random() < 0.3}
         if kind == 'multi':
             n = rng.randint(1, 3)
             plan['subs'] = [{'kind': 'dev_io', 'dev': self._gen_dev(rng)} for _ in range(n)]
@@ -255,6 +267,10 @@ class Lifecycle(BaseEngine):
             if k == 'del':
                 break
         plan['ops'] = ops
+        if plan['epilogue'] and can_out and kind not in ('multi', 'echo') and rng.random() < 0.5:
+            # the first port's own reset burst is cut short by a write error
+            plan['autoreset'] = True
+            plan['dev']['send_fail'] = [rng.randrange(32)]
         return plan
 
     # ---------------------------------------------------------------- execution
@@ -399,9 +415,13 @@ class Lifecycle(BaseEngine):
             if plan.get('consumer_mutates'):
                 mutate(m)       # the caller edits what it received; later messages must not care
 
+        DEVERR = object()
+
         def call(where, fn, *a, expect=()):
             c0, s0 = clock.now, clock.sleep_calls
             clock.arm()
+            for d in devs:
+                d.recv_failed_now = False
             try:
                 res = fn(*a)
                 outc = ('ok', res)
@@ -410,7 +430,11 @@ class Lifecycle(BaseEngine):
             except Violation:
                 raise
             except BaseException as e:
-                if expect and isinstance(e, expect):
+                if isinstance(e, OSError) and any(d.recv_failed_now for d in devs):
+                    # the device failed while being read: the call may fail (never return wrong data)
+                    stats['fault:recv_oserror'] += 1
+                    outc = ('device-read-error', e.with_traceback(None))
+                elif expect and isinstance(e, expect):
                     outc = ('raised', e.with_traceback(None))
                 else:
                     raise Violation(f'raised:{type(e).__name__}@{kind}.{where}',
@@ -422,6 +446,10 @@ class Lifecycle(BaseEngine):
 
         def nonblocking(where, fn):
             (tag, res), dt, sl = call(where, fn)
+            if tag == 'device-read-error':
+                if dt > 0 or sl > 0:
+                    raise Violation(f'nonblocking-waited@{kind}.{where}', f'{where} waited before failing')
+                return DEVERR
             if tag == 'never-returned' or dt > 0 or sl > 0:
                 raise Violation(f'nonblocking-waited@{kind}.{where}',
                                 f'{where} (non-blocking) advanced the clock by {dt}s / called sleep {sl} time(s)')
@@ -433,6 +461,9 @@ class Lifecycle(BaseEngine):
 
         def do_recv_nb(where, fn):
             res = nonblocking(where, fn)
+            if res is DEVERR:
+                log.ev(where, 'device-read-error')
+                return
             log.ev(where, repr(res))
             if res is None:
                 if model_pending() > 0:
@@ -449,7 +480,9 @@ class Lifecycle(BaseEngine):
             was_closed = bool(P().closed)
             pend0 = model_pending()
             (tag, res), dt, sl = call(where, P().receive, expect=(ValueError, OSError))
-            log.ev(where, tag, type(res).__name__ if tag == 'raised' else repr(res), round(dt, 6))
+            log.ev(where, tag, type(res).__name__ if tag in ('raised', 'device-read-error') else repr(res), round(dt, 6))
+            if tag == 'device-read-error':
+                return 'ok'
             if tag == 'never-returned':
                 if dl is not None:
                     raise Violation(f'blocking-receive-never-returned@{kind}',
@@ -630,6 +663,8 @@ class Lifecycle(BaseEngine):
                     n = 0
                     while True:
                         res = nonblocking('iter_pending', lambda: next(it, StopIteration))
+                        if res is DEVERR:
+                            break
                         if res is StopIteration:
                             if model_pending() > 0:
                                 raise Violation(f'none-but-taken-in@{kind}.iter_pending',
@@ -655,7 +690,9 @@ class Lifecycle(BaseEngine):
                     hang = hangup_pending()
                     was_closed = bool(P().closed)
                     (tag, res), dt, sl = call('iter', lambda: next(it, StopIteration))
-                    log.ev('iter', tag, repr(res), round(dt, 6))
+                    log.ev('iter', tag, repr(res) if tag != 'device-read-error' else 'OSError', round(dt, 6))
+                    if tag == 'device-read-error':
+                        break
                     if tag == 'never-returned':
                         if dl is not None or was_closed or hang:
                             raise Violation(f'iteration-never-ended@{kind}',
@@ -750,6 +787,27 @@ class Lifecycle(BaseEngine):
                                         f'after del (was_closed={was_closed}) the device was released '
                                         f'{d.close_calls} time(s)')
                 stats['probe:del_after_close' if was_closed else 'probe:del_open'] += 1
+        if plan.get('epilogue'):
+            # a second, unrelated autoreset port opened and closed afterwards must get its own full reset burst
+            # (whatever happened to the first port while it was being closed)
+            if port is not None and not port.closed:
+                try:
+                    clock.horizon = float('inf')
+                    port.close()
+                except Exception:
+                    pass
+            d2 = Device(clock, 0, {}, log)
+            p2 = DevOut('later', dev=d2, autoreset=True)
+            try:
+                p2.close()
+                p2.close()
+            except Exception as e:
+                raise Violation(f'raised:{type(e).__name__}@epilogue.close', f'closing a later, unrelated port raised {e!r}')
+            if d2.sent != reset_msgs or d2.close_calls != 1 or d2.sent_at_close != 32:
+                raise Violation(f'autoreset-wrong@epilogue', f'a later, unrelated autoreset port got {len(d2.sent)} reset '
+                                                             f'message(s) and {d2.close_calls} release(s) on close (earlier '
+                                                             f'port kind: {kind})')
+            stats['probe:epilogue_port'] += 1
         if any(d.hung for d in devs):
             stats['fault:device_hangup'] += 1
         if any(d.style != 'echo' and any(a[2] is None for a in d.arrivals[:d.next]) for d in devs):
@@ -790,10 +848,15 @@ class Lifecycle(BaseEngine):
                 yield replace_at(plan, ('dev',), {k: v for k, v in d.items() if k != 'partial'})
             if d.get('send_fail'):
                 yield replace_at(plan, ('dev',), {k: v for k, v in d.items() if k != 'send_fail'})
+            if d.get('recv_fail'):
+                yield replace_at(plan, ('dev',), {k: v for k, v in d.items() if k != 'recv_fail'})
             if d.get('style') != 'old':
                 yield replace_at(plan, ('dev', 'style'), 'old')
         if plan['autoreset']:
             yield replace_at(plan, ('autoreset',), False)
+        for flag in ('epilogue', 'bystander', 'consumer_mutates'):
+            if plan.get(flag):
+                yield replace_at(plan, (flag,), False)
         if plan['start_time']:
             yield replace_at(plan, ('start_time',), 0.0)
         for i, op in enumerate(plan['ops']):
